@@ -80,6 +80,15 @@ def main():
             res.append(r)
             print("%-45s %-8s %s" % (r["name"], r["outcome"],
                                      "; ".join("%s rc=%d %s %s" % (o[0], o[1], o[2], o[3][-200:]) for o in r.get("results", [])) or r.get("detail", "")), flush=True)
+    if not a.only and not a.prop:
+        out = os.path.join(ROOT, "selftest", "RESULTS-seeded.md" if a.seeded else "RESULTS-planted.md")
+        with open(out, "w") as f:
+            f.write("# %s changes vs. checks (tools/selftest.py%s)\n\n| change | outcome | checks (exit code, first keys) |\n|---|---|---|\n"
+                    % ("Seeded" if a.seeded else "Planted", " --seeded" if a.seeded else ""))
+            for r in res:
+                f.write("| %s | %s | %s |\n" % (r["name"], r["outcome"], "; ".join(
+                    "%s rc=%d %s" % (o[0], o[1], ", ".join(k.split(" count=")[0].replace("key=", "") for k in o[2]))
+                    for o in r.get("results", [])) or r.get("detail", "")))
     missed = [r for r in res if r["outcome"] != "caught"]
     print("%d planted changes, %d caught, %d not caught" % (len(res), len(res) - len(missed), len(missed)))
     return 0 if not missed else 1
